@@ -25,7 +25,10 @@ CreateT(id, timeout, tags, pid, ttl) ==
   [kind |-> "CreatePromiseAndTask", a |-> [id |-> id, ikey |-> None, strict |-> FALSE, param |-> EmptyValue, timeout |-> timeout, tags |-> tags, pid |-> pid, ttl |-> ttl]]
 
 RECURSIVE Build(_, _)
-Build(S, reqs) == IF reqs = <<>> THEN S ELSE Build(Op(Head(reqs).kind, S, Head(reqs).a, 1).db, Tail(reqs))
+\* (a setup step "Dispatch" is a dispatch cycle at instant 1 whose hand-off succeeds)
+SetupStep(S, r) == IF r.kind = "Dispatch" THEN Dispatch(S, r.a.task, "ok", Delay, 1) ELSE Op(r.kind, S, r.a, 1).db
+Build(S, reqs) == IF reqs = <<>> THEN S ELSE Build(SetupStep(S, Head(reqs)), Tail(reqs))
+Handoff(x) == [kind |-> "Dispatch", a |-> [task |-> x]]
 Routed1 == ("resonate:invoke" :> "w")
 
 \* Every behaviour takes `Parties` of the scenario's requests and sweeps (Kernel!Init chooses them
@@ -53,6 +56,14 @@ DB_lease == Build(EmptyDB, Setup_lease)
 Script_lease == << Claim("__invoke:p", 1, "w1", 2), Claim("__invoke:p", 1, "w2", 2), CompleteT("__invoke:p", 1), Beat("w1"),
                    CompleteP("p", RESOLVED, None, FALSE), Claim("__invoke:p", 2, "w2", 2) >>
 Times_lease == {2, 5}
+
+\* --- reclaim: the task has been handed off; claims, a completion and the completion of the promise
+\*     race with the sweep that takes back hand-offs nobody claimed
+Setup_reclaim == << Create("p", 20, None, FALSE, Routed1), Handoff("__invoke:p") >>
+DB_reclaim == Build(EmptyDB, Setup_reclaim)
+Script_reclaim == << Claim("__invoke:p", 1, "w1", 3), Claim("__invoke:p", 1, "w2", 3), CompleteT("__invoke:p", 1), Beat("w1"),
+                     CompleteP("p", RESOLVED, None, FALSE), Claim("__invoke:p", 2, "w2", 3) >>
+Times_reclaim == {2, 4}
 
 \* --- beat: the holder's heartbeat and completion against the lease sweep and a rival
 Setup_beat == << CreateT("p", 20, Routed1, "w1", 2) >>
